@@ -208,6 +208,15 @@ def check(prog, rep, tier):
             rep.ok("C02.returns-query", f"{CTX}.{n}: query_method(sorted(rows))")
             if n != "check_alt":
                 rep.ok("C02.total-before-query", f"{CTX}.{n}")
+    # the hash list of a key is the same for add, remove and check: hashes() may remember answers only as a sound memo
+    hf = prog.method(CTX, "hashes")
+    if any(e.kind == "setfield" and e.base == SELF for p in paths(prog, CTX, hf, inline="deep") for e in p.events):
+        from .C19 import memo_sound
+        okm, why = memo_sound(prog, CTX, hf)
+        if not okm:
+            rep.bad("C02.address-agree", f"{CTX}.hashes", "remembered hashes",
+                    f"hashes() can answer from a remembered list that is not known to belong to this call ({why}): an add, remove or check then addresses "
+                    "the cells of a different (key, depth) and the estimate of the real key is off", hf.where())
     # default slot = min query = results[0]
     mq = prog.method(CTX, "__min_query")
     mps = paths(prog, CTX, mq)
